@@ -153,6 +153,32 @@ def origins(body, o, depth=12, seen=None):
     return res
 
 
+def origins_through_try(body, o, depth=6):
+    """origins(), but a value that was wrapped by an inlined helper (`Ok(v)` / `Some(v)`) and unwrapped again by the caller's `?`
+    (`Try::branch` + `(cf as Continue).0`) or by a pattern (`(r as Ok).0`) is followed to the origins of v."""
+    out = []
+    for og in origins(body, o):
+        if og[0] == 'place' and depth > 0 and len(og[1]['p']) >= 2 and og[1]['p'][0] in ('as Continue', 'as Ok', 'as Some'):
+            base = {'l': og[1]['l'], 'p': []}
+            pierced = False
+            for o2 in origins(body, base):
+                st = o2[1] if o2[0] not in ('param', 'const', 'place') else None
+                if isinstance(st, dict) and st.get('k') == 'call' and call_matches(st, r'Try>?::branch$') and st['args']:
+                    for o3 in origins(body, st['args'][0]):
+                        st3 = o3[1] if o3[0] not in ('param', 'const', 'place') else None
+                        if isinstance(st3, dict) and st3.get('k') == 'assign' and st3['rv']['k'] == 'agg' and st3['rv'].get('var') in ('Ok', 'Some') and len(st3['rv'].get('ops', [])) == 1:
+                            out += origins_through_try(body, st3['rv']['ops'][0], depth - 1)
+                            pierced = True
+                elif isinstance(st, dict) and st.get('k') == 'assign' and st['rv']['k'] == 'agg' and st['rv'].get('var') in ('Ok', 'Some', 'Continue') and len(st['rv'].get('ops', [])) == 1:
+                    out += origins_through_try(body, st['rv']['ops'][0], depth - 1)
+                    pierced = True
+            if not pierced:
+                out.append(og)
+        else:
+            out.append(og)
+    return out
+
+
 def forward_taint(body, seeds, through_refs=True):
     """locals that receive a (copy/move/ref/cast of a) seed local; returns set of locals."""
     t = set(seeds)
@@ -255,15 +281,48 @@ def switch_edges_on_call_result(body, call_pos, proj=None):
             if s['k'] == 'assign' and not s['dst']['p'] and s['rv']['k'] == 'use' and is_local_op(s['rv']['o']) and s['rv']['o']['l'] in locs and s['rv']['o']['p'] == [proj]:
                 sel.add(s['dst']['l'])
         locs = forward_taint(body, sel, through_refs=True) if sel else set()
+    if proj is None:
+        # the value wrapped and unwrapped again: `Ok(flag)` of an inlined helper, the caller's `?`, then the payload
+        wrap = set()
+        grew = True
+        while grew:
+            grew = False
+            for pos, s in body.iter_stmts():
+                if s['k'] != 'assign' or s['dst']['p']:
+                    continue
+                rv = s['rv']
+                d = s['dst']['l']
+                if rv['k'] == 'agg' and rv.get('var') in ('Ok', 'Some', 'Continue') and len(rv.get('ops', [])) == 1 and is_local_op(rv['ops'][0]) and rv['ops'][0]['l'] in locs and not rv['ops'][0]['p'] and d not in wrap:
+                    wrap.add(d); grew = True
+                elif rv['k'] in ('use', 'cast') and is_local_op(rv['o']) and rv['o']['l'] in wrap:
+                    pp = rv['o']['p']
+                    if not pp and d not in wrap:
+                        wrap.add(d); grew = True
+                    elif len(pp) == 2 and pp[0] in ('as Ok', 'as Some', 'as Continue') and d not in locs:
+                        locs.add(d); grew = True
+            for pos, t2 in body.iter_calls():
+                if call_matches(t2, r'Try>?::branch$') and t2['args'] and is_local_op(t2['args'][0]) and t2['args'][0]['l'] in wrap and not t2['dst']['p'] and t2['dst']['l'] not in wrap:
+                    wrap.add(t2['dst']['l']); grew = True
+            nl = forward_taint(body, locs, through_refs=True)
+            if nl - locs:
+                locs |= nl; grew = True
     # discriminant reads
+    discs = set()
     for pos, s in body.iter_stmts():
         if s['k'] == 'assign' and s['rv']['k'] == 'discr' and s['rv']['pl']['l'] in locs and not s['dst']['p']:
             locs.add(s['dst']['l'])
+            discs.add(s['dst']['l'])
         if s['k'] == 'assign' and s['rv']['k'] == 'un' and s['rv']['op'] == 'Not' and is_local_op(s['rv']['o']) and s['rv']['o']['l'] in locs:
             pass  # negation handled by caller (edge meaning flips); we do not follow it
-    for pos, tt in body.iter_terms():
-        if tt['k'] == 'switch' and is_local_op(tt['d']) and tt['d']['l'] in locs and not tt['d']['p']:
-            return pos[0], {v: b for v, b in tt['ts']}, tt['else']
+    cands = [(pos, tt) for pos, tt in body.iter_terms() if tt['k'] == 'switch' and is_local_op(tt['d']) and tt['d']['l'] in locs and not tt['d']['p']]
+    if proj is None and (body.local_ty(r) or '') == 'bool':
+        # a bool that travels inside a wrapper first (`Ok(flag)` of an inlined helper, then `?`): the test of the FLAG is the switch on a
+        # bool local, not the switch on the wrapper's discriminant
+        bools = [(pos, tt) for pos, tt in cands if tt['d']['l'] not in discs and (body.local_ty(tt['d']['l']) or '') == 'bool']
+        if bools:
+            cands = bools
+    for pos, tt in cands:
+        return pos[0], {v: b for v, b in tt['ts']}, tt['else']
     return None
 
 
